@@ -41,6 +41,17 @@ MUTANTS = [
                 operands.append(operand)""", """            if cnt_d == 0 and cnt_s == 0:
                 operands.append(operand)"""),
     ("C01", "stexp-ac-field", "pdpy11/architecture.py", '"stexp" : "175[0SS]dd"', '"stexp" : "175[1SS]dd"'),
+    ("C04", "max-offset-plus-2", "pdpy11/insns.py", "max_offset = 0 if self.unsigned else 2 ** bitness - 2", "max_offset = 0 if self.unsigned else 2 ** bitness"),
+    ("C04", "parity-check-dropped", "pdpy11/insns.py", "            if offset % 2 == 1:\n", "            if False and offset % 2 == 1:\n"),
+    ("C04", "rel-address-ignores-preceding-ext", "pdpy11/insns.py", '"rel_address": state["emit_address"] + 2 + len(operands_encoding)', '"rel_address": state["emit_address"] + 2'),
+    ("C04", "min-offset-strict", "pdpy11/insns.py", "if not min_offset <= offset <= max_offset:", "if not min_offset < offset <= max_offset:"),
+    ("C04", "relative-deferred-minus-2-dropped", "pdpy11/insns.py", """return 0o77, SizedDeferred[bytes](2, lambda: struct.pack("<H", wait(operand.operand.resolve(state) - state["rel_address"] - 2)""", """return 0o77, SizedDeferred[bytes](2, lambda: struct.pack("<H", wait(operand.operand.resolve(state) - state["rel_address"])"""),
+    ("C04", "sob-min-offset", "pdpy11/insns.py", "min_offset = -2 ** (bitness + self.unsigned) + 2 * self.unsigned", "min_offset = -2 ** (bitness + self.unsigned)"),
+    ("C04", "error-only-warning", "pdpy11/insns.py", """                    reports.error(
+                        "branch-out-of-bounds",
+                        (insn.name.ctx_start, insn.name.ctx_end, f"Instruction '{insn.name.name}' can only jump from""", """                    reports.warning(
+                        "branch-out-of-bounds",
+                        (insn.name.ctx_start, insn.name.ctx_end, f"Instruction '{insn.name.name}' can only jump from"""),
     ("C13", "bit-order-msb-first", "pdpy11/bk_wav.py", "(byte >> i) & 1", "(byte >> (7 - i)) & 1"),
     ("C13", "checksum-mod-65536", "pdpy11/bk_wav.py", "            result -= 0xffff\n", "            result -= 0x10000\n"),
     ("C13", "name-padded-with-nul", "pdpy11/metacommands.py", 'encoded_bk_filename.ljust(16, b" ")', 'encoded_bk_filename.ljust(16, b"\\0")'),
